@@ -523,6 +523,8 @@ func ApplyOp(p *bluemonday.Policy, o Op, log *Log) {
 		p.AllowDataAttributes()
 	case "AllowComments":
 		p.AllowComments()
+	case "AllowUnsafe":
+		p.AllowUnsafe(o.B)
 	case "AddSpaceWhenStrippingTag":
 		p.AddSpaceWhenStrippingTag(o.B)
 	case "RequireParseableURLs":
@@ -648,6 +650,7 @@ type Model struct {
 	globStyles                                                     map[string][]styleRule
 	dataAttrs                                                      bool
 	comments                                                       bool
+	unsafe                                                         bool // AllowUnsafe(true): only C09 and C12 generate it
 	spaces                                                         bool
 	parseURLs                                                      bool
 	relative                                                       bool
@@ -895,6 +898,8 @@ func (m *Model) apply(o Op) {
 		m.dataAttrs = true
 	case "AllowComments":
 		m.comments = true
+	case "AllowUnsafe":
+		m.unsafe = o.B
 	case "AddSpaceWhenStrippingTag":
 		m.spaces = o.B
 	case "RequireParseableURLs":
